@@ -363,6 +363,12 @@ def illformed_variants(rng):
     yield "repeated-operand-minimum-reordered", ["DEFINE some AS minimum(2, [a, b, c])\n"
                                                  "RULE r0 CATEGORY catA CUTOFF 5 NEIGHBOURHOOD 5 CONDITIONS d and some and minimum(2, [c, b, a])\n"]
     yield "repeated-operand-minimum", ["RULE r0 CATEGORY catA CUTOFF 5 NEIGHBOURHOOD 5 CONDITIONS minimum(2, [a, b, a])\n"]
+    # where the grammar wants an integer only digits will do (Python's int() also reads 2_0, -0, +5 and ' 5')
+    for bad in ("2_0", "-0", "+5", "0_1", "5.0", "1e1"):
+        yield "malformed-integer", [base.replace("CUTOFF 5", f"CUTOFF {bad}")]
+        yield "malformed-integer", [base.replace("NEIGHBOURHOOD 5", f"NEIGHBOURHOOD {bad}")]
+        yield "malformed-integer", [f"RULE r0 CATEGORY catA CUTOFF 5 NEIGHBOURHOOD 5 CONDITIONS minscore(b, {bad})\n"]
+        yield "malformed-integer", [f"RULE r0 CATEGORY catA CUTOFF 5 NEIGHBOURHOOD 5 CONDITIONS minimum({bad}, [a, b, c])\n"]
     for marker in ("CUTOFF 5 ", "NEIGHBOURHOOD 5 ", "CATEGORY catA ", "CONDITIONS a and (b or c)"):
         yield "missing-" + marker.split()[0], [base.replace(marker, "")]
     yield "missing-CONDITIONS-body", ["RULE r0 CATEGORY catA CUTOFF 5 NEIGHBOURHOOD 5 CONDITIONS\n"]
